@@ -1,4 +1,9 @@
 import DosModel.Model.Dispatch
+import DosModel.Model.ConnTableCfg
+import DosModel.Model.ConnTableDrv
 import DosModel.Gen.P2PFlow
-def main : IO Unit :=
-  Dos.lineLoop (Dos.Dispatch.driverStep (Dos.Gen.handshakeDeadline && Dos.Gen.mergeErrorsReleases))
+def c17Step (line : String) : String :=
+  match Dos.words line with
+  | ["hist", peers, steps] => Dos.ConnTable.stepHist Dos.ConnTable.Cfg.code peers steps
+  | _ => Dos.Dispatch.driverStep (Dos.Gen.handshakeDeadline && Dos.Gen.mergeErrorsReleases) line
+def main : IO Unit := Dos.lineLoop c17Step
